@@ -355,6 +355,32 @@ WithinHalfUlpF(c, f) ==
     ELSE IF c.neg # (f[1] >= 32768) THEN FALSE
     ELSE IF c.e > 60 \/ c.e < -60 THEN FALSE
     ELSE HalfUlpCore(c, FltParts(f))
+\* reduced-precision modes (%.15g / %.7g): the token has at most nd significant digits and differs from the binary value
+\* M * 2^k by at most half a unit of its nd-th significant digit (it is the nd-digit rounding of the value)
+DigitsCore(c, P, nd) ==
+    LET n == Len(c.ds)
+        x == c.e - n
+        D0 == BFromDigits(c.ds, n)
+        M0 == BFromLimbs16(P.m)
+        s2 == (IF P.k < 0 THEN -P.k ELSE 0) + 2
+        k2 == P.k + s2
+        pad == nd - n                                        \* everything is further scaled by 10^pad
+        Dn == BMulPow(BMulPow(IF x >= 0 THEN BMulPow(D0, 10, x) ELSE D0, 2, s2), 10, pad)
+        Mn == BMulPow(BMulPow(IF x < 0 THEN BMulPow(M0, 10, -x) ELSE M0, 2, k2), 10, pad)
+        unit == BMulPow(IF x >= 0 THEN BMulPow(<<1>>, 10, x) ELSE <<1>>, 2, s2)    \* 10^(e-nd) in the common scale
+    IN n <= nd /\ BCmp(BMul(BAbsDiff(Dn, Mn), 2), unit) <= 0
+WithinDigits(c, d, nd) ==
+    IF c.ds = <<>> THEN IsZeroD(d)
+    ELSE IF IsZeroD(d) \/ ~IsFiniteD(d) THEN FALSE
+    ELSE IF c.neg # (d[1] >= 32768) THEN FALSE
+    ELSE IF c.e > 400 \/ c.e < -400 THEN FALSE
+    ELSE DigitsCore(c, DblParts(d), nd)
+WithinDigitsF(c, f, nd) ==
+    IF c.ds = <<>> THEN IsZeroF(f)
+    ELSE IF IsZeroF(f) \/ (f[1] % 32768) \div 128 = 255 THEN FALSE
+    ELSE IF c.neg # (f[1] >= 32768) THEN FALSE
+    ELSE IF c.e > 60 \/ c.e < -60 THEN FALSE
+    ELSE DigitsCore(c, FltParts(f), nd)
 \* tokens whose magnitude lies outside the binary64 range (about 1e-324 .. 1.8e308): their decoded value is left open
 OutOfRange(c) == c.ds # <<>> /\ (c.e > 308 \/ c.e < -322)
 
@@ -413,9 +439,9 @@ TokenDenotes(lx, a, exact) ==
     LET c == Canon(lx) IN
     IF TKind(a) = "i" THEN SameReal(c, IntCanon(a.i))
     ELSE IF TKind(a) = "d" THEN
-         (IF ~exact THEN TRUE
+         (IF ~exact THEN WithinDigits(c, a.d, 15)
           ELSE LET sd == SimpleDbl(c) IN IF sd.ok THEN SameDbl(sd.d, a.d) ELSE WithinHalfUlp(c, a.d))
-    ELSE IF TKind(a) = "f" THEN (IF ~exact THEN TRUE ELSE WithinHalfUlpF(c, a.f))
+    ELSE IF TKind(a) = "f" THEN (IF ~exact THEN WithinDigitsF(c, a.f, 7) ELSE WithinHalfUlpF(c, a.f))
     ELSE FALSE
 RECURSIVE TextDenotes(_, _, _)
 TextDenotes(v, a, exact) ==
